@@ -1225,6 +1225,8 @@ impl<'a> Sup<'a> {
         if log {
             // thread ids differ from run to run: a successful clone is recorded as 1
             let ret = if (n == libc::SYS_clone || n == libc::SYS_clone3) && ret > 0 { 1 } else { ret };
+            // log lines contain the sandbox path, whose length differs between workers
+            let ret = if proto.name == "write:stdio" && ret > 0 { 1 } else { ret };
             let mut ev = self.mk_ev(idx, i, &proto, a, ret, inj);
             if ret >= 0 && matches!(n, libc::SYS_openat | libc::SYS_open | libc::SYS_creat | libc::SYS_openat2) {
                 ev.fd = ret as i32;
